@@ -243,6 +243,8 @@ structure Rec where
   peer : Nat
   minInt : Nat
   maxInt : Nat
+  /-- the id of the subscription (`None` in a record written before the id was persisted) -/
+  id : Option Nat := none
 deriving Repr, DecidableEq, Inhabited
 
 /-- `SubscriptionsInner<N>` + the live report contexts + the persisted records (`kv`, one per slot
@@ -411,24 +413,37 @@ def State.nextReportAt (s : State) (evwm : Nat) : Nat :=
 
 /-! ## Persisted subscriptions (`persistent-subscriptions`) -/
 
-def Sub.toRec (x : Sub) : Rec := { fab := x.fab, peer := x.peer, minInt := x.minInt, maxInt := x.maxInt }
+def Sub.toRec (x : Sub) : Rec :=
+  { fab := x.fab, peer := x.peer, minInt := x.minInt, maxInt := x.maxInt, id := some x.id }
 
 /-- `persist_all`: one record per subscription **of the table** (`state.subscriptions`, at most `N`),
 the keys past the table length are removed.  A subscription that is outside the table at that
 moment (being primed or reported on) is not written. -/
 def State.persist (s : State) : State := { s with kv := (s.subs.take s.n).map Sub.toRec }
 
+/-- the id a resumed subscription gets and the next id to assign after it: `add` draws
+`next_subscription_id`; then the id of the record is given back unless a subscription of the table
+holds it already, and `next_subscription_id` is kept above it -/
+def State.resumeId (s : State) (r : Rec) : Nat × Nat :=
+  match r.id with
+  | some j =>
+    if s.subs.any (fun x => x.id == j) then (s.nextSubId, s.nextSubId + 1)
+    else (j, max (s.nextSubId + 1) (j + 1))
+  | none => (s.nextSubId, s.nextSubId + 1)
+
 /-- one iteration of the loop of `load_persist`: `self.add(now, …)`, then
-`rctx.next_reported_at = Instant::MAX; sub.resumed_at = now; rctx.set_keep()` and the drop of the
-context (`report_complete` with `keep`, the `reporting` slot is empty): the subscription enters the
-table not primed, with the watermarks `add` snapshots and the resume instant as its expiry base.  `None` from `add` (table full) drops the record. -/
+`rctx.next_reported_at = Instant::MAX; sub.resumed_at = now;` the id of the record is restored,
+`rctx.set_keep()` and the drop of the context (`report_complete` with `keep`, the `reporting` slot is
+empty): the subscription enters the table not primed, with the watermarks `add` snapshots, the resume
+instant as its expiry base and the id its subscriber knows.  `None` from `add` (table full) drops the
+record. -/
 def State.resumeOne (s : State) (r : Rec) (now evwm : Nat) : State :=
   if s.count ≥ s.n then s
   else
-    let sub : Sub := { id := s.nextSubId, fab := r.fab, peer := r.peer, minInt := r.minInt,
+    let sub : Sub := { id := (s.resumeId r).1, fab := r.fab, peer := r.peer, minInt := r.minInt,
                        maxInt := r.maxInt, reportedAt := IMAX, retryAt := 0, fail := 0,
                        seenAttr := s.changed.watermark, seenEv := evwm, resumedAt := now }
-    { s with count := s.count + 1, nextSubId := s.nextSubId + 1, subs := s.subs ++ [sub] }
+    { s with count := s.count + 1, nextSubId := (s.resumeId r).2, subs := s.subs ++ [sub] }
 
 /-- a restart of the device: a fresh `InteractionModelState` (empty table, change ids from 1, every
 report context is gone with its task) and `load_persist` over the records `0 .. N` of the same
